@@ -1,9 +1,333 @@
 import Lean.Data.Json
-/-! Driver handlers for property C09: `handle op request` answers one JSON request. -/
-namespace Pydjinni.Drv.C09
-open Lean
+import PydjinniModel.Gen.Deriving
+/-!
+Driver handlers for property C09.
 
-def handle (op : String) (_req : Json) : Except String Json :=
-  throw s!"unknown op {op}"
+* `c09.eval`      the emitted C++ and Java bodies (`Gen/Deriving.lean`) evaluated with `Lang/MiniImp` on tuples of concrete
+                  field values: all six C++ operators, Java `equals`, `hashCode`, `compareTo`, `toString`
+* `c09.decision`  which file / operator / method is emitted for a record configuration
+* `c09.spec`      the specification predicate on the results observed from the compiled implementation
+
+Concrete field values (`DV`): fixed-width integers, booleans, strings (ASCII), enum constants, lists, and *atoms* —
+opaque values with a given position in their type's order, hash code and string form (nested records, whose own derived
+operations were evaluated by a previous `c09.eval`).
+-/
+namespace Pydjinni.Drv.C09
+open Lean Pydjinni.Gen Pydjinni.Lang.MiniImp
+
+inductive DV where
+  | int (bits : Nat) (n : Int)
+  | bool (b : Bool)
+  | str (s : String)
+  | enum (ordinal : Nat) (name : String)
+  | list (l : List DV)
+  | atom (rank : Int) (hash : Int) (repr : String)
+deriving Repr, Inhabited
+
+mutual
+partial def DV.eq : DV → DV → Bool
+  | .int _ a, .int _ b => a == b
+  | .bool a, .bool b => a == b
+  | .str a, .str b => a == b
+  | .enum a _, .enum b _ => a == b
+  | .list a, .list b => DV.eqList a b
+  | .atom a _ _, .atom b _ _ => a == b
+  | _, _ => false
+partial def DV.eqList : List DV → List DV → Bool
+  | [], [] => true
+  | a :: as, b :: bs => DV.eq a b && DV.eqList as bs
+  | _, _ => false
+end
+
+mutual
+partial def DV.lt : DV → DV → Bool
+  | .int _ a, .int _ b => a < b
+  | .bool a, .bool b => !a && b
+  | .str a, .str b => a < b
+  | .enum a _, .enum b _ => a < b
+  | .list a, .list b => DV.ltList a b
+  | .atom a _ _, .atom b _ _ => a < b
+  | _, _ => false
+partial def DV.ltList : List DV → List DV → Bool
+  | [], _ :: _ => true
+  | a :: as, b :: bs => DV.lt a b || (!DV.lt b a && DV.ltList as bs)
+  | _, _ => false
+end
+
+/-- `(int)(x ^ (x >>> 32))` on a 64-bit value -/
+def longHash (x : Int) : Int :=
+  let u := (x % 18446744073709551616).toNat
+  wrap32 (Int.ofNat ((u ^^^ (u >>> 32)) % 4294967296))
+
+/-- `String.hashCode` (ASCII) -/
+def stringHash (s : String) : Int := s.toList.foldl (fun h c => wrap32 (31 * h + Int.ofNat c.toNat)) 0
+
+/-- pydjinni's hash expression for a primitive field -/
+def DV.hashPrim : DV → Int
+  | .int 64 n => longHash n
+  | .int _ n => n
+  | .bool b => if b then 1 else 0
+  | .atom _ h _ => h
+  | _ => 0
+
+/-- Java `x.hashCode()` -/
+partial def DV.hashObj : DV → Int
+  | .int 64 n => longHash n
+  | .int _ n => n
+  | .bool b => if b then 1231 else 1237
+  | .str s => stringHash s
+  | .enum _ _ => 0                                   -- identity hash: not predicted (see `hashExact`)
+  | .list l => l.foldl (fun h e => wrap32 (31 * h + e.hashObj)) 1
+  | .atom _ h _ => h
+
+partial def DV.show : DV → String
+  | .int _ n => toString n
+  | .bool b => if b then "true" else "false"
+  | .str s => s
+  | .enum _ n => n
+  | .list l => "[" ++ ", ".intercalate (l.map DV.show) ++ "]"
+  | .atom _ _ r => r
+
+partial def DV.hasEnum : DV → Bool
+  | .enum _ _ => true
+  | .list l => l.any DV.hasEnum
+  | _ => false
+
+def dvOps : Ops DV := ⟨DV.eq, DV.lt, DV.hashPrim, DV.hashObj, DV.show⟩
+
+/-! ### JSON -/
+
+partial def decodeDV (j : Json) : Except String (Option DV) :=
+  match j with
+  | .null => pure none
+  | _ =>
+    match j.getObjValAs? (Array Json) "i" with
+    | .ok #[b, n] => do pure (some (.int (← b.getNat?) (← n.getInt?)))
+    | _ =>
+    match j.getObjValAs? Bool "b" with
+    | .ok b => pure (some (.bool b))
+    | _ =>
+    match j.getObjValAs? String "s" with
+    | .ok s => pure (some (.str s))
+    | _ =>
+    match j.getObjValAs? (Array Json) "e" with
+    | .ok #[o, n] => do pure (some (.enum (← o.getNat?) (← n.getStr?)))
+    | _ =>
+    match j.getObjValAs? (Array Json) "l" with
+    | .ok a => do
+      let es ← a.toList.mapM decodeDV
+      pure (some (.list (es.filterMap id)))
+    | _ =>
+    match j.getObjValAs? (Array Json) "a" with
+    | .ok #[r, h, s] => do pure (some (.atom (← r.getInt?) (← h.getInt?) (← s.getStr?)))
+    | _ => throw s!"bad value {j.compress}"
+
+def decodeField (idx : Nat) (j : Json) : Except String Field := do
+  pure { idx := idx, cppName := ← j.getObjValAs? String "cpp", javaName := ← j.getObjValAs? String "java",
+         optional := ← j.getObjValAs? Bool "optional", ref := ← j.getObjValAs? Bool "ref", isEnum := ← j.getObjValAs? Bool "enum",
+         isBinary := (j.getObjValAs? Bool "binary").toOption.getD false }
+
+structure Req where
+  fields : List Field
+  values : List (List (Option DV))
+  typename : String
+  cfg : RecordCfg
+
+def decodeCfg (req : Json) (n : Nat) : RecordCfg :=
+  let b := fun k => (req.getObjValAs? Bool k).toOption.getD false
+  { eq := b "eq", ord := b "ord", nFields := n, cppStringSer := b "cppStringSer", cppBase := b "cppBase", javaStringSer := b "javaStringSer" }
+
+def decodeReq (req : Json) : Except String Req := do
+  let fa ← req.getObjValAs? (Array Json) "fields"
+  let fields ← fa.toList.zipIdx.mapM (fun (j, i) => decodeField i j)
+  let va := (req.getObjValAs? (Array Json) "values").toOption.getD #[]
+  let values ← va.toList.mapM (fun t => do
+    let a ← t.getArr?
+    if a.size != fields.length then throw "value tuple and field list differ in length"
+    a.toList.mapM decodeDV)
+  pure { fields := fields, values := values, typename := (req.getObjValAs? String "typename").toOption.getD "T", cfg := decodeCfg req fields.length }
+
+def envOf (a b : List (Option DV)) : Env Field DV := ⟨fun f => (a[f.idx]?).join, fun f => (b[f.idx]?).join⟩
+
+def resJ : Res Val → Json
+  | .ok (.bool b) => Json.bool b
+  | .ok (.int n) => Json.num (JsonNumber.fromInt n)
+  | .npe => Json.str "npe"
+  | .stuck => Json.str "stuck"
+
+def sign (n : Int) : Int := if n < 0 then -1 else if n > 0 then 1 else 0
+
+/-- `c09.eval` -/
+def eval (req : Json) : Except String Json := do
+  let r ← decodeReq req
+  let c := r.cfg
+  let n := r.values.length
+  let idx := List.range n
+  let vals := r.values.toArray
+  let pairs := idx.flatMap (fun i => idx.map (fun j => (i, j)))
+  let pj := pairs.map (fun (i, j) =>
+    let env := envOf vals[i]! vals[j]!
+    let cpp := (if cppDefinesEq c then [("eq", resJ (cppOp dvOps r.fields env .eq)), ("ne", resJ (cppOp dvOps r.fields env .ne))] else [])
+      ++ (if cppDefinesOrd c then [("lt", resJ (cppOp dvOps r.fields env .lt)), ("gt", resJ (cppOp dvOps r.fields env .gt)),
+                                   ("le", resJ (cppOp dvOps r.fields env .le)), ("ge", resJ (cppOp dvOps r.fields env .ge))] else [])
+    let java := (if javaHasEquals c then [("equals", resJ (run dvOps env (javaEqualsBody r.fields)))] else [])
+      ++ (if javaHasCompareTo c then [("compare", resJ (run dvOps env (javaCompareBody r.fields)))] else [])
+    Json.mkObj [("i", i), ("j", j), ("cpp", Json.mkObj cpp), ("java", Json.mkObj java)])
+  let hashes := if javaHasHashCode c then r.values.map (fun v => resJ (run dvOps (envOf v v) (javaHashBody r.fields))) else []
+  let strs := if javaHasToString c then r.values.map (fun v => Json.str (javaToString dvOps r.typename r.fields (envOf v v))) else []
+  let hashExact := !(r.values.any (fun t => t.any (fun o => match o with | some v => v.hasEnum | none => false)))
+  let (fmt, args) := cppToStringFormat r.typename r.fields
+  pure (Json.mkObj [("pairs", Json.arr pj.toArray), ("hash", Json.arr hashes.toArray), ("str", Json.arr strs.toArray),
+    ("hashExact", hashExact), ("cppFormat", fmt), ("cppFormatArgs", Json.arr (args.map Json.str).toArray)])
+
+def decisionJ (c : RecordCfg) : Json :=
+  Json.mkObj [("cppWritesSource", cppWritesSource c), ("cppDeclaresEq", cppDeclaresEq c), ("cppDeclaresOrd", cppDeclaresOrd c),
+    ("cppDefinesEq", cppDefinesEq c), ("cppDefinesOrd", cppDefinesOrd c), ("cppDeclaresToString", cppDeclaresToString c),
+    ("cppDefinesToString", cppDefinesToString c), ("javaHasEquals", javaHasEquals c), ("javaHasHashCode", javaHasHashCode c),
+    ("javaHasCompareTo", javaHasCompareTo c), ("javaImplementsComparable", javaImplementsComparable c), ("javaHasToString", javaHasToString c)]
+
+def decision (req : Json) : Except String Json := do
+  let n ← req.getObjValAs? Nat "nFields"
+  pure (decisionJ (decodeCfg req n))
+
+/-! ### specification on observed results -/
+
+inductive Obs where
+  | b (v : Bool)
+  | i (n : Int)
+  | exc (what : String)
+  | absent
+deriving BEq, Repr
+
+def obsOf (j : Json) (k : String) : Obs :=
+  match j.getObjVal? k with
+  | .ok (.bool v) => .b v
+  | .ok (.str s) => .exc s
+  | .ok (.num n) => .i n.mantissa
+  | _ => .absent
+
+structure PairObs where
+  i : Nat
+  j : Nat
+  cpp : Json
+  java : Json
+
+/-- `c09.spec`: `impl` has the shape of the `c09.eval` answer (`pairs`, `hash`, `str`), `impl.decl` the observed emission facts -/
+def spec (req : Json) : Except String Json := do
+  let r ← decodeReq req
+  let c := r.cfg
+  let impl ← req.getObjVal? "impl"
+  let vals := r.values.toArray
+  let pa := (impl.getObjValAs? (Array Json) "pairs").toOption.getD #[]
+  let ps ← pa.toList.mapM (fun p => do
+    pure ({ i := ← p.getObjValAs? Nat "i", j := ← p.getObjValAs? Nat "j", cpp := (p.getObjVal? "cpp").toOption.getD Json.null,
+            java := (p.getObjVal? "java").toOption.getD Json.null } : PairObs))
+  let look := fun (i j : Nat) => ps.find? (fun p => p.i == i && p.j == j)
+  let mut fails : List (String × String × Nat × Nat) := []
+  let add := fun (fs : List (String × String × Nat × Nat)) (t w : String) (i j : Nat) =>
+    if fs.any (fun (t', w', _, _) => t' == t && w' == w) then fs else fs ++ [(t, w, i, j)]
+  let hashes := (impl.getObjValAs? (Array Json) "hash").toOption.getD #[]
+  let hashOf := fun (i : Nat) => match hashes[i]? with | some (.num n) => some n.mantissa | _ => none
+  for p in ps do
+    let a := vals[p.i]!
+    let b := vals[p.j]!
+    let same := allEq dvOps a b
+    let less := lexLt dvOps a b
+    let greater := lexLt dvOps b a
+    let present := a.all Option.isSome && b.all Option.isSome
+    -- C++
+    if cppDeclaresEq c then
+      match obsOf p.cpp "eq" with
+      | .b v => if v != same then fails := add fails "cpp" "== differs from 'all fields equal'" p.i p.j
+      | _ => fails := add fails "cpp" "== not executable" p.i p.j
+      match obsOf p.cpp "eq", obsOf p.cpp "ne" with
+      | .b v, .b w => if w == v then fails := add fails "cpp" "!= is not the negation of ==" p.i p.j
+      | _, _ => fails := add fails "cpp" "!= not executable" p.i p.j
+    if cppDeclaresOrd c then
+      match obsOf p.cpp "lt" with
+      | .b v => if v != less then fails := add fails "cpp" "< differs from the lexicographic order of the fields" p.i p.j
+      | _ => fails := add fails "cpp" "< not executable" p.i p.j
+      match obsOf p.cpp "lt", obsOf p.cpp "gt", obsOf p.cpp "le", obsOf p.cpp "ge" with
+      | .b lt, .b gt, .b le, .b ge =>
+        match (look p.j p.i).map (fun q => obsOf q.cpp "lt") with
+        | some (.b ltr) =>
+          if gt != ltr then fails := add fails "cpp" "> is not the converse of <" p.i p.j
+          if le != !ltr then fails := add fails "cpp" "<= is not the negation of >" p.i p.j
+          if lt && ltr then fails := add fails "cpp" "< is not asymmetric" p.i p.j
+          if cppDeclaresEq c then
+            match obsOf p.cpp "eq" with
+            | .b e => if (lt || ltr) == e then fails := add fails "cpp" "< is not total / not consistent with ==" p.i p.j
+            | _ => pure ()
+        | _ => pure ()
+        if ge != !lt then fails := add fails "cpp" ">= is not the negation of <" p.i p.j
+      | _, _, _, _ => fails := add fails "cpp" "ordering operators not executable" p.i p.j
+    -- Java
+    if javaHasEquals c then
+      match obsOf p.java "equals" with
+      | .b v =>
+        if v != same then fails := add fails "java" "equals differs from 'all fields equal'" p.i p.j
+        if v then
+          match hashOf p.i, hashOf p.j with
+          | some h1, some h2 => if h1 != h2 then fails := add fails "java" "equal objects have different hash codes" p.i p.j
+          | _, _ => fails := add fails "java" "hashCode not executable" p.i p.j
+      | .exc e => fails := add fails "java" s!"equals throws {e}" p.i p.j
+      | _ => fails := add fails "java" "equals not executable" p.i p.j
+    if javaHasCompareTo c then
+      match obsOf p.java "compare" with
+      | .i v =>
+        let want : Int := if less then -1 else if greater then 1 else 0
+        if present && sign v != want then fails := add fails "java" "compareTo sign differs from the lexicographic order of the fields" p.i p.j
+        match (look p.j p.i).map (fun q => obsOf q.java "compare") with
+        | some (.i w) => if sign v != - sign w then fails := add fails "java" "sgn(compareTo(a,b)) != -sgn(compareTo(b,a))" p.i p.j
+        | _ => pure ()
+        if javaHasEquals c then
+          match obsOf p.java "equals" with
+          | .b e => if (v == 0) != e then fails := add fails "java" "compareTo == 0 is not equivalent to equals" p.i p.j
+          | _ => pure ()
+      | .exc e => fails := add fails "java" s!"compareTo throws {e}" p.i p.j
+      | _ => fails := add fails "java" "compareTo not executable" p.i p.j
+  -- equivalence / transitivity on the observed relations
+  let n := r.values.length
+  let idx := List.range n
+  let getB := fun (lang k : String) (i j : Nat) => match look i j with
+    | some p => (match obsOf (if lang == "cpp" then p.cpp else p.java) k with | .b v => some v | _ => none)
+    | none => none
+  for (lang, k, on) in [("cpp", "eq", cppDeclaresEq c), ("java", "equals", javaHasEquals c)] do
+    if on then
+      for i in idx do
+        if getB lang k i i == some false then fails := add fails lang s!"{k} is not reflexive" i i
+        for j in idx do
+          if getB lang k i j != getB lang k j i then fails := add fails lang s!"{k} is not symmetric" i j
+          for l in idx do
+            if getB lang k i j == some true && getB lang k j l == some true && getB lang k i l == some false then
+              fails := add fails lang s!"{k} is not transitive" i l
+  if cppDeclaresOrd c then
+    for i in idx do
+      if getB "cpp" "lt" i i == some true then fails := add fails "cpp" "< is not irreflexive" i i
+      for j in idx do
+        for l in idx do
+          if getB "cpp" "lt" i j == some true && getB "cpp" "lt" j l == some true && getB "cpp" "lt" i l == some false then
+            fails := add fails "cpp" "< is not transitive" i l
+  -- string form
+  if javaHasToString c then
+    let strs := (impl.getObjValAs? (Array Json) "str").toOption.getD #[]
+    for i in idx do
+      match strs[i]? with
+      | some (.str s) =>
+        for f in r.fields do
+          if (s.splitOn (f.javaName ++ "=")).length < 2 then fails := add fails "java" "toString does not mention every field" i i
+      | _ => fails := add fails "java" "toString not executable" i i
+  let hasOpt := r.fields.any (·.optional)
+  let clauses := (if c.ord && hasOpt then ["optional-under-ord"] else [])
+  pure (Json.mkObj [("holds", fails.isEmpty),
+    ("failures", Json.arr (fails.map (fun (t, w, i, j) => Json.mkObj [("target", t), ("why", w), ("i", i), ("j", j)])).toArray),
+    ("clauses", Json.arr (clauses.map Json.str).toArray)])
+
+def handle (op : String) (req : Json) : Except String Json :=
+  match op with
+  | "c09.eval" => eval req
+  | "c09.decision" => decision req
+  | "c09.spec" => spec req
+  | _ => throw s!"unknown op {op}"
 
 end Pydjinni.Drv.C09
